@@ -311,16 +311,20 @@ fn compare_numberings(
             }
             for (k, e1) in s1 {
                 let e2 = &s2[k];
-                let map = &maps[w.sols[*k as usize].pred];
+                // whatever the code under test reports must not make the comparison itself fail
+                let Some(map) = w.sols.get(*k as usize).and_then(|s| maps.get(s.pred)) else {
+                    return Err(format!("a failing solution index {k} that the set does not have"));
+                };
+                let at = |n: &usize| map.get(*n).copied().unwrap_or(usize::MAX);
                 let ok = match (e1, e2) {
                     (SolErr::InvalidGraph, SolErr::InvalidGraph) => true,
                     (SolErr::Unsatisfied(x), SolErr::Unsatisfied(y)) => {
-                        x.iter().map(|n| map[*n]).collect::<BTreeSet<_>>() == *y
+                        x.iter().map(at).collect::<BTreeSet<_>>() == *y
                     }
                     (SolErr::Program(x), SolErr::Program(y)) => {
                         if w.collect_all {
                             x.iter()
-                                .map(|(n, k)| (map[*n], k.clone()))
+                                .map(|(n, k)| (at(n), k.clone()))
                                 .collect::<BTreeMap<_, _>>()
                                 == *y
                         } else {
